@@ -58,6 +58,9 @@ Inductive obj :=
 | OUnPat (o : op1) (a : obj)
 | OBinPat (o : op2) (a b : obj)
 | ONarPat (o : op3) (a : obj) (args : list obj)
+| OPseq (items : list obj) (repeats : nat)  (* Pseq(items, repeats) around arbitrary items: each item is EMBEDDED *)
+| OPn (p : obj) (repeats : nat)           (* Pn(p, repeats) *)
+| OPatStr (p : obj)                       (* PatternValueStream(p): next() drives embed(p) *)
 | OSeq (k : kind) (items : list obj)      (* list / tuple / ChannelList *)
 | OOperand (rest : bool) (a : obj)        (* Operand(value) / Rest(value) *)
 | OErr (e : err).                         (* an exception was raised *)
@@ -68,8 +71,8 @@ Definition class_of (o : obj) : cls :=
   match o with
   | ONum _ => CNum
   | OFn _ | OUnFn _ _ | OBinFn _ _ _ | ONarFn _ _ _ => CFn
-  | OStr _ | OValStr _ | OUnStr _ _ | OBinStr _ _ _ | ONarStr _ _ _ => CStr
-  | OPat _ | OUnPat _ _ | OBinPat _ _ _ | ONarPat _ _ _ => CPat
+  | OStr _ | OValStr _ | OUnStr _ _ | OBinStr _ _ _ | ONarStr _ _ _ | OPatStr _ => CStr
+  | OPat _ | OUnPat _ _ | OBinPat _ _ _ | ONarPat _ _ _ | OPseq _ _ | OPn _ _ => CPat
   | OSeq k _ => CSeq k
   | OOperand r _ => COperand r
   | OErr _ => CErr
@@ -95,7 +98,8 @@ Definition operand_value (o : obj) : obj := match o with OOperand _ y => y | _ =
 (* stream.stream(x): x.__stream__() if it has one, else ValueStream(x) *)
 Fixpoint to_stream (o : obj) : obj :=
   match o with
-  | OStr _ | OValStr _ | OUnStr _ _ | OBinStr _ _ _ | ONarStr _ _ _ => o
+  | OStr _ | OValStr _ | OUnStr _ _ | OBinStr _ _ _ | ONarStr _ _ _ | OPatStr _ => o
+  | OPseq _ _ | OPn _ _ => OPatStr o        (* Pattern.__stream__: PatternValueStream(self) *)
   | OPat items => OStr items
   | OUnPat g a => OUnStr g (to_stream a)
   | OBinPat g a b => OBinStr g (to_stream a) (to_stream b)
@@ -263,15 +267,74 @@ Definition sseq {A} (l : list (strm A)) : strm (list A) :=
   fold_right (szip cons) (SConst []) l.
 Definition slen {A} (s : strm A) : option nat := match s with SFin l => Some (length l) | SConst _ => None end.
 
-Fixpoint pull (o : obj) : strm obj :=
-  match o with
-  | OStr items => SFin (map ONum items)
-  | OValStr a => SConst a
-  | OUnStr g a => smap (sel_apply1 g) (pull a)
-  | OBinStr g a b => szip (sel_apply2 g) (pull a) (pull b)
-  | ONarStr g a args => szip (sel_apply3 g) (pull a) (sseq (map pull args))
-  | _ => SConst o
+(* concatenation of finite streams (an infinite one makes the whole infinite: never generated) *)
+Fixpoint sconcat {A} (l : list (strm A)) : strm A :=
+  match l with
+  | [] => SFin []
+  | SConst a :: _ => SConst a
+  | SFin x :: r => match sconcat r with SFin y => SFin (x ++ y) | SConst a => SConst a end
   end.
+Fixpoint srepeat {A} (n : nat) (s : strm A) : strm A :=
+  match n with
+  | O => SFin []
+  | S n' => sconcat [s; srepeat n' s]
+  end.
+
+(* Three ways a sequence of values is drawn from an object:
+     MPull    o is a Stream object: o.next() until StopStream;
+     MStream  stream(o) is made first (o.__stream__() or ValueStream(o)), then pulled;
+     MEmbed   `yield from embed(o)` inside an enclosing pattern (o.__embed__, or ValueStream(o).__embed__
+              which yields o once).
+   Punop and Pnarop have their OWN __embed__ loops (pattern.py:174, 226) next to their __stream__;
+   Pbinop embeds through Pattern.__embed__ = self.__stream__().__embed__().  The three are transcribed
+   separately below although the formulas coincide (proofs/C15_lift.v: embed_eq_stream).
+   Routines are modelled as fresh values: a Pseq/Pn with repeats > 1 around a Routine (which would be
+   found exhausted, or half consumed, the second time) is outside the model (never generated). *)
+Inductive pmode := MPull | MStream | MEmbed.
+Fixpoint xpull (m : pmode) (o : obj) : strm obj :=
+  match o with
+  (* stream objects: the same in the three modes, except ValueStream.__embed__ which yields once *)
+  | OStr items => SFin (map ONum items)
+  | OValStr a => match m with MEmbed => SFin [a] | _ => SConst a end
+  | OUnStr g a => smap (sel_apply1 g) (xpull MPull a)
+  | OBinStr g a b => szip (sel_apply2 g) (xpull MPull a) (xpull MPull b)
+  | ONarStr g a args => szip (sel_apply3 g) (xpull MPull a) (sseq (map (xpull MPull) args))
+  | OPatStr p => xpull MEmbed p
+  (* patterns *)
+  | OPat items => match m with MPull => SConst o | _ => SFin (map ONum items) end
+  | OUnPat g a =>
+      match m with
+      | MPull => SConst o
+      | MStream => smap (sel_apply1 g) (xpull MStream a)         (* UnopStream(selector, stream(a)) *)
+      | MEmbed => smap (sel_apply1 g) (xpull MStream a)          (* Punop.__embed__: its own loop *)
+      end
+  | OBinPat g a b =>
+      match m with
+      | MPull => SConst o
+      | MStream => szip (sel_apply2 g) (xpull MStream a) (xpull MStream b)   (* BinopStream(sel, stream(a), stream(b)) *)
+      | MEmbed => szip (sel_apply2 g) (xpull MStream a) (xpull MStream b)    (* self.__stream__().__embed__() *)
+      end
+  | ONarPat g a args =>
+      match m with
+      | MPull => SConst o
+      | MStream => szip (sel_apply3 g) (xpull MStream a) (sseq (map (xpull MStream) args))   (* NaropStream *)
+      | MEmbed => szip (sel_apply3 g) (xpull MStream a) (sseq (map (xpull MStream) args))    (* Pnarop.__embed__: own loop,
+                                                             every argument stream is advanced for every element *)
+      end
+  | OPseq items r =>
+      match m with
+      | MPull => SConst o
+      | _ => srepeat r (sconcat (map (xpull MEmbed) items))      (* for item in lst: yield from embed(item) *)
+      end
+  | OPn p r =>
+      match m with
+      | MPull => SConst o
+      | _ => srepeat r (xpull MEmbed p)
+      end
+  (* anything else: a value; stream(o) = ValueStream(o), embed(o) yields o once *)
+  | _ => match m with MEmbed => SFin [o] | _ => SConst o end
+  end.
+Definition pull (o : obj) : strm obj := xpull MPull o.
 
 (* ---------------------------------------------------------------------- *)
 (* deep evaluation, as an observer would do it: call what is callable (at the fixed
@@ -304,7 +367,7 @@ Section Deep.
                   | SFin l => DStr (map (eval_f n) l)
                   | SConst _ => DErr EFuel          (* infinite stream: never generated *)
                   end
-        | CPat => match pull (to_stream o) with
+        | CPat => match xpull MStream o with
                   | SFin l => DStr (map (eval_f n) l)
                   | SConst _ => DErr EFuel
                   end
@@ -358,7 +421,9 @@ Inductive expr :=
 | ELeaf (o : obj)
 | EUn (g : op1) (a : expr)
 | EBin (g : op2) (a b : expr)
-| ENar (g : op3) (a : expr) (args : list expr).
+| ENar (g : op3) (a : expr) (args : list expr)
+| EPseq (items : list expr) (repeats : nat)     (* Pseq([...], repeats) around built expressions *)
+| EPn (a : expr) (repeats : nat).
 
 Fixpoint build (e : expr) : obj :=
   match e with
@@ -366,4 +431,6 @@ Fixpoint build (e : expr) : obj :=
   | EUn g a => apply_unop g (build a)
   | EBin g a b => apply_binop g (build a) (build b)
   | ENar g a args => apply_narop g (build a) (map build args)
+  | EPseq items r => OPseq (map build items) r
+  | EPn a r => OPn (build a) r
   end.
